@@ -23,6 +23,6 @@ OBLIGATIONS = [
 ] + [O('C12.f-rectclip-perpath-cleanup-res%d' % r, 'rect_units.cpp', 'harness_perpath_cleanup', defs=['RES=%d' % r], replace=EXE, unwind=10, tiers='qt' if r in (1, 6) else 't', bound='two paths in one Execute; residue pattern %d (bits: start locations 0-2, result ring + edge entry)' % r, desc='RectClip64::Execute empties results_, edges_, start_locs_, op_container_ after every path, whatever the path left behind') for r in (0, 1, 2, 4, 5, 6)] + [
   O('C12.e-groups-independent-empty-first', 'off_dispatch.cpp', 'harness_groups_independent', defs=['LEN0=0'], replace=BOTH, unwind=8, bound='group 1: one empty path (any end type); group 2: triangle; all deltas, join/end types, flags', desc='the second group is offset with the delta of the call (sign included) whatever group came first; clean-up union keeps orientation flags'),
   O('C12.e-groups-independent-2', 'off_dispatch.cpp', 'harness_groups_independent', defs=['LEN0=2'], replace=BOTH, unwind=8, bound='group 1: two-point path; group 2: triangle', desc='as above'),
-  O('C12.e-groups-independent-1', 'off_dispatch.cpp', 'harness_groups_independent', defs=['LEN0=1'], replace=BOTH, unwind=8, tiers='t', bound='group 1: single point; group 2: triangle', desc='as above'),
+  O('C12.e-groups-independent-1', 'off_dispatch.cpp', 'harness_groups_independent', defs=['LEN0=1'], replace=BOTH, unwind=8, tiers='x', bound='group 1: single point; group 2: triangle', desc='as above'),
   O('C12.d-paths-independent-2-3', 'off_dispatch.cpp', 'harness_dispatch_independent', defs=['LEN0=2', 'LEN1=3'], replace=OFFW, unwind=8, bound='group of a 2-point and a 3-point path', desc='per-path dispatch does not depend on earlier paths of the group (shared with C07.a)'),
 ]
